@@ -674,7 +674,11 @@ pub fn c10builtins(repo: &Path) -> Result<String, String> {
             let txt = st.to_token_stream().to_string().replace(' ', "");
             if txt.starts_with("#[cfg(feature=\"verif-hooks\")]") { continue; }
             if let Stmt::Local(_) = st {
-                if txt.ends_with("=this.0.lock().unwrap();") { continue; }
+                // `let raw = this.0.lock().unwrap();`, or through a guard helper: `let raw = this.raw();`
+                if let Some((_, rhs)) = txt.split_once("=this.") {
+                    let helper_call = rhs.strip_suffix("();").is_some_and(|n| !n.is_empty() && n.chars().all(|c| c.is_alphanumeric() || c == '_'));
+                    if rhs == "0.lock().unwrap();" || helper_call { continue; }
+                }
             }
             if let Stmt::Expr(Expr::Match(m), _) = st { scrut = Some((*m.expr).clone()); }
             break;
@@ -782,231 +786,852 @@ pub fn c10builtins(repo: &Path) -> Result<String, String> {
 //
 // `c10locks` → `Generated/C10Locks.lean`: for every function of
 // `src/value/list.rs` (outside `mod tests`) and every binding body of
-// `src/runtime/basic.rs` that touches a mutex, the sequence of lock events as
-// written: each acquisition with its kind (blocking `.lock()` / `.try_lock()`),
-// what happens to the `Err` of its result (`unwrap` / `expect` / anything else),
-// which list it locks (receiver `self`/`this`, `other`, a fresh `new`), each
-// release (`drop(guard)`, end of the statement for a temporary guard, end of the
-// function for a named one) and the `if Arc::ptr_eq(..) { return .. }` guard.
-// A helper that returns a `MutexGuard` is resolved at its call sites.
-// `RotoV.Model.MutexPanic` gives these events their meaning.
+// `src/runtime/basic.rs` that touches a mutex, the lock events as written, as a
+// TREE that follows the control flow: each acquisition with its kind (blocking
+// `.lock()` / `.try_lock()`), what happens to the `Err` of its result (`unwrap`
+// / `expect` / anything else), which list it locks (receiver `self`/`this`,
+// `other`, a list created in the function), each release (`drop(guard)`, end of
+// the statement for a temporary guard, end of the block for a named one, every
+// guard at a `return`), and one `branch` node per `if`/`else`, `match` arm, loop
+// body, early `return` or `?` that matters for the locks.  The condition of a
+// branch is recorded where it compares the two lists' addresses
+// (`Arc::ptr_eq(&self.0, &other.0)`, `Arc::as_ptr(&self.0) < Arc::as_ptr(&other.0)`
+// and its variants); every other condition is `opaque` (both sides possible).
+// Guards that a block hands to an enclosing `let (a, b) = if … { …; (a, b) } else { … }`
+// stay held under the outer names.  `#[cfg(feature = "verif-hooks")]` statements
+// are skipped.  A helper that returns a `MutexGuard` is resolved at its call
+// sites.  Any other shape that involves a lock is an extraction failure.
+// `RotoV.Model.MutexPanic` gives the tree its meaning.
 
 #[derive(Clone, Debug, PartialEq)]
 enum LEv {
     Acq { kind: &'static str, on_fail: &'static str, tgt: &'static str },
     Rel(&'static str),
-    Distinct,
+    Assume(&'static str, bool),
+}
+
+#[derive(Debug)]
+enum LTree {
+    Done,
+    Ev(LEv, Box<LTree>),
+    Branch(&'static str, Box<LTree>, Box<LTree>),
 }
 
 fn strip(e: &impl ToTokens) -> String {
     e.to_token_stream().to_string().replace(' ', "")
 }
 
-fn tgt_of(recv: &str) -> &'static str {
-    let r = recv.trim_start_matches('&').trim_start_matches('(');
-    let first: String = r.chars().take_while(|c| c.is_alphanumeric() || *c == '_').collect();
-    match first.as_str() {
-        "self" | "this" | "self_" => "self_",
-        "other" => "other",
-        "new" => "fresh",
-        _ => "unknown",
+fn first_ident(recv: &str) -> String {
+    let r = recv.trim_start_matches('&').trim_start_matches('(').trim_start_matches('&');
+    r.chars().take_while(|c| c.is_alphanumeric() || *c == '_').collect()
+}
+
+#[derive(Clone, Debug)]
+struct Held {
+    /// binding name (None for a temporary, or once shadowed)
+    name: Option<String>,
+    tgt: &'static str,
+    temp: bool,
+}
+
+/// one control-flow path in progress
+#[derive(Clone, Default, Debug)]
+struct Cfg {
+    path: Vec<LEv>,
+    held: Vec<Held>,
+    /// `let swap = <address comparison>;` ↦ (condition, polarity)
+    flags: BTreeMap<String, (&'static str, bool)>,
+    /// names bound to a list created in this function (`let new = Self::new(..)`)
+    fresh: HashSet<String>,
+    /// `self`/`this`/`other` re-bound by a `let`: no longer the list argument
+    rebound: HashSet<String>,
+}
+
+impl Cfg {
+    fn tgt(&self, recv: &str) -> &'static str {
+        let first = first_ident(recv);
+        if self.rebound.contains(&first) {
+            return "unknown";
+        }
+        if self.fresh.contains(&first) {
+            return "fresh";
+        }
+        match first.as_str() {
+            "self" | "this" | "self_" => "self_",
+            "other" => "other",
+            _ => "unknown",
+        }
+    }
+    fn release_from(&mut self, mark: usize, temps_only: bool) {
+        let mut i = self.held.len();
+        while i > mark {
+            i -= 1;
+            if !temps_only || self.held[i].temp {
+                let h = self.held.remove(i);
+                self.path.push(LEv::Rel(h.tgt));
+            }
+        }
+    }
+    fn shadow(&mut self, name: &str) {
+        for h in self.held.iter_mut() {
+            if h.name.as_deref() == Some(name) {
+                h.name = None;
+            }
+        }
+        self.flags.remove(name);
+        self.fresh.remove(name);
+        if ["self", "this", "other"].contains(&name) {
+            self.rebound.insert(name.to_string());
+        }
     }
 }
 
-struct LockWalk<'h> {
-    helpers: &'h BTreeMap<String, (&'static str, &'static str)>,
-    ev: Vec<LEv>,
-    /// named guards still held: (binding name or None once shadowed, target)
-    held: Vec<(Option<String>, &'static str)>,
-    /// temporaries acquired in the current statement
-    temps: Vec<&'static str>,
-    /// `let swap = Arc::as_ptr(&P.0) > Arc::as_ptr(&Q.0);` ↦ (P, Q, is_greater)
-    order_flags: BTreeMap<String, (String, String, bool)>,
-    /// names bound by the address-order idiom: the lower- / higher-addressed list
-    names: BTreeMap<String, &'static str>,
-}
+/// the guards a block hands to the enclosing `let` pattern, slot by slot
+type Moves = Vec<Option<&'static str>>;
+type Helpers = BTreeMap<String, (&'static str, &'static str)>;
 
-/// `Arc::as_ptr(&P.0) > Arc::as_ptr(&Q.0)` (or `<`) ↦ (P, Q, is_greater)
-fn addr_compare(e: &Expr) -> Option<(String, String, bool)> {
-    let Expr::Binary(b) = e else { return None };
-    let gt = match b.op {
-        syn::BinOp::Gt(_) => true,
-        syn::BinOp::Lt(_) => false,
-        _ => return None,
-    };
-    let side = |x: &Expr| -> Option<String> {
-        let t = strip(x);
-        let inner = t.strip_prefix("Arc::as_ptr(&")?.strip_suffix(".0)")?;
-        Some(inner.to_string())
-    };
-    Some((side(&b.left)?, side(&b.right)?, gt))
-}
-
-fn tuple2(b: &syn::Block) -> Option<(String, String)> {
-    match b.stmts.as_slice() {
-        [Stmt::Expr(Expr::Tuple(t), None)] if t.elems.len() == 2 => Some((strip(&t.elems[0]), strip(&t.elems[1]))),
+/// which of the two list arguments an `Arc` expression (`&self.0`, `&other.inner.0`) names
+fn arc_side(txt: &str, cfg: &Cfg) -> Option<&'static str> {
+    let t = txt.trim_start_matches('&');
+    if !t.ends_with(".0") {
+        return None;
+    }
+    match cfg.tgt(t) {
+        "self_" => Some("self_"),
+        "other" => Some("other"),
         _ => None,
     }
 }
 
-impl LockWalk<'_> {
-    fn tgt(&self, recv: &str) -> &'static str {
-        let r = recv.trim_start_matches('&').trim_start_matches('(');
-        let first: String = r.chars().take_while(|c| c.is_alphanumeric() || *c == '_').collect();
-        match self.names.get(&first) {
-            Some(t) => t,
-            None => tgt_of(recv),
+/// A condition on the addresses of the two lists ↦ (condition, polarity): the
+/// expression is true iff `condition == polarity`.  `Ok(None)`: the expression
+/// says nothing about addresses (opaque).  An expression that mentions
+/// `Arc::as_ptr`/`ptr_eq` in any other shape is an error.
+fn cond_of(e: &Expr, cfg: &Cfg) -> Result<Option<(&'static str, bool)>, String> {
+    match e {
+        Expr::Paren(p) => return cond_of(&p.expr, cfg),
+        Expr::Unary(u) if matches!(u.op, syn::UnOp::Not(_)) => {
+            return Ok(cond_of(&u.expr, cfg)?.map(|(c, p)| (c, !p)));
         }
-    }
-    /// `let (x, y) = if swap { (Q, P) } else { (P, Q) };` with `swap = addr(P) > addr(Q)`:
-    /// `x` is the lower-addressed list, `y` the higher-addressed one
-    fn order_idiom(&mut self, l: &syn::Local) -> bool {
-        let Pat::Tuple(pt) = &l.pat else { return false };
-        let ids: Vec<String> = pt.elems.iter().filter_map(|p| if let Pat::Ident(i) = p { Some(i.ident.to_string()) } else { None }).collect();
-        if ids.len() != 2 || pt.elems.len() != 2 {
-            return false;
+        Expr::Path(p) => {
+            if let Some(f) = cfg.flags.get(&strip(p)) {
+                return Ok(Some(*f));
+            }
         }
-        let Some(init) = &l.init else { return false };
-        let Expr::If(i) = &*init.expr else { return false };
-        let cmp = addr_compare(&i.cond).or_else(|| self.order_flags.get(&strip(&i.cond)).cloned());
-        let Some((p, q, gt)) = cmp else { return false };
-        let Some((_, Expr::Block(eb))) = i.else_branch.as_ref().map(|(t, e)| (t, &**e)) else { return false };
-        let (Some(th), Some(el)) = (tuple2(&i.then_branch), tuple2(&eb.block)) else { return false };
-        // under the condition the first component must be the lower address, and likewise under its negation
-        let (want_then, want_else) = if gt { ((q.clone(), p.clone()), (p.clone(), q.clone())) } else { ((p.clone(), q.clone()), (q.clone(), p.clone())) };
-        let both_lists = [tgt_of(&p), tgt_of(&q)];
-        if th == want_then && el == want_else && both_lists.contains(&"self_") && both_lists.contains(&"other") {
-            self.names.insert(ids[0].clone(), "lo");
-            self.names.insert(ids[1].clone(), "hi");
-            return true;
+        Expr::Call(c) if strip(&c.func) == "Arc::ptr_eq" && c.args.len() == 2 => {
+            let (a, b) = (arc_side(&strip(&c.args[0]), cfg), arc_side(&strip(&c.args[1]), cfg));
+            return match (a, b) {
+                (Some(x), Some(y)) if x != y => Ok(Some(("same", true))),
+                _ => Err(format!("unsupported: Arc::ptr_eq on something other than the two list arguments: {}", strip(e))),
+            };
         }
-        false
-    }
-}
-
-impl LockWalk<'_> {
-    /// `<recv>.lock().unwrap()` / `.try_lock().expect(..)` / `<recv>.lock()` / `<recv>.helper()`
-    fn as_acq(&self, e: &Expr) -> Option<(&'static str, &'static str, &'static str, Vec<Expr>)> {
-        let Expr::MethodCall(m) = e else { return None };
-        let name = m.method.to_string();
-        let unwrapish = match name.as_str() {
-            "unwrap" | "unwrap_unchecked" => Some("unwrap"),
-            "expect" => Some("expect"),
-            _ => None,
-        };
-        if let Some(of) = unwrapish {
-            if let Expr::MethodCall(inner) = &*m.receiver {
-                let k = match inner.method.to_string().as_str() {
-                    "lock" => Some("blocking"),
-                    "try_lock" => Some("try_"),
-                    _ => None,
-                };
-                if let Some(k) = k {
-                    return Some((k, of, self.tgt(&strip(&inner.receiver)), m.args.iter().cloned().collect()));
+        Expr::Binary(b) => {
+            let side = |x: &Expr| -> Option<&'static str> {
+                let t = strip(x);
+                let inner = t.strip_prefix("Arc::as_ptr(")?.strip_suffix(')')?;
+                arc_side(inner, cfg)
+            };
+            if let (Some(l), Some(r)) = (side(&b.left), side(&b.right)) {
+                if l != r {
+                    let self_left = l == "self_";
+                    use syn::BinOp::*;
+                    let r = match b.op {
+                        Lt(_) => Some(if self_left { ("selfLtOther", true) } else { ("otherLtSelf", true) }),
+                        Gt(_) => Some(if self_left { ("otherLtSelf", true) } else { ("selfLtOther", true) }),
+                        // a <= b  ⇔  ¬ (b < a)
+                        Le(_) => Some(if self_left { ("otherLtSelf", false) } else { ("selfLtOther", false) }),
+                        Ge(_) => Some(if self_left { ("selfLtOther", false) } else { ("otherLtSelf", false) }),
+                        Eq(_) => Some(("same", true)),
+                        Ne(_) => Some(("same", false)),
+                        _ => None,
+                    };
+                    if let Some(r) = r {
+                        return Ok(Some(r));
+                    }
                 }
             }
-            return None;
         }
-        match name.as_str() {
-            "lock" => Some(("blocking", "other", self.tgt(&strip(&m.receiver)), vec![])),
-            "try_lock" => Some(("try_", "other", self.tgt(&strip(&m.receiver)), vec![])),
-            h if m.args.is_empty() && self.helpers.contains_key(h) => {
-                let (k, of) = self.helpers[h];
-                Some((k, of, self.tgt(&strip(&m.receiver)), vec![]))
-            }
-            _ => None,
-        }
+        _ => {}
     }
-    fn release_temps(&mut self, from: usize) {
-        while self.temps.len() > from {
-            let t = self.temps.pop().unwrap();
-            self.ev.push(LEv::Rel(t));
-        }
+    let t = strip(e);
+    if t.contains("as_ptr") || t.contains("ptr_eq") {
+        return Err(format!("unsupported: address condition of an unknown shape: {t}"));
     }
+    Ok(None)
 }
 
-impl<'ast> Visit<'ast> for LockWalk<'_> {
-    fn visit_stmt(&mut self, s: &'ast Stmt) {
-        let mark = self.temps.len();
-        if let Stmt::Local(l) = s {
-            let name = match &l.pat {
-                Pat::Ident(i) => Some(i.ident.to_string()),
-                Pat::Type(t) => match &*t.pat {
-                    Pat::Ident(i) => Some(i.ident.to_string()),
-                    _ => None,
-                },
+struct TW<'h> {
+    helpers: &'h Helpers,
+    /// finished paths (ended by `return`, `?`, or the end of the body)
+    done: Vec<Cfg>,
+}
+
+/// `<recv>.lock().unwrap()` / `.try_lock().expect(..)` / `<recv>.lock()` / `<recv>.helper()`
+fn as_acq<'e>(e: &'e Expr, helpers: &Helpers, cfg: &Cfg) -> Option<(&'static str, &'static str, &'static str, &'e Expr)> {
+    let Expr::MethodCall(m) = e else { return None };
+    let name = m.method.to_string();
+    let unwrapish = match name.as_str() {
+        "unwrap" | "unwrap_unchecked" => Some("unwrap"),
+        "expect" => Some("expect"),
+        _ => None,
+    };
+    if let Some(of) = unwrapish {
+        if let Expr::MethodCall(inner) = &*m.receiver {
+            let k = match inner.method.to_string().as_str() {
+                "lock" => Some("blocking"),
+                "try_lock" => Some("try_"),
                 _ => None,
             };
-            if self.order_idiom(l) {
-                return;
+            if let Some(k) = k {
+                return Some((k, of, cfg.tgt(&strip(&inner.receiver)), &*inner.receiver));
             }
-            if let (Some(n), Some(init)) = (&name, &l.init) {
-                if let Some(c) = addr_compare(&init.expr) {
-                    self.order_flags.insert(n.clone(), c);
-                }
-            }
-            if let Some(init) = &l.init {
-                if let Some((k, of, t, _)) = self.as_acq(&init.expr) {
-                    // a guard bound to a name lives until `drop(name)` or the end of the function
-                    self.ev.push(LEv::Acq { kind: k, on_fail: of, tgt: t });
-                    for h in self.held.iter_mut() {
-                        if h.0 == name {
-                            h.0 = None;
-                        }
-                    }
-                    self.held.push((name, t));
-                    return;
-                }
-            }
-            syn::visit::visit_stmt(self, s);
-            // a later `let` of the same name shadows the guard: it stays held, but cannot be dropped by name
-            for h in self.held.iter_mut() {
-                if h.0.is_some() && h.0 == name {
-                    h.0 = None;
-                }
-            }
-        } else {
-            syn::visit::visit_stmt(self, s);
         }
-        self.release_temps(mark);
+        return None;
     }
+    match name.as_str() {
+        "lock" if m.args.is_empty() => Some(("blocking", "other", cfg.tgt(&strip(&m.receiver)), &*m.receiver)),
+        "try_lock" if m.args.is_empty() => Some(("try_", "other", cfg.tgt(&strip(&m.receiver)), &*m.receiver)),
+        h if m.args.is_empty() && helpers.contains_key(h) => {
+            let (k, of) = helpers[h];
+            Some((k, of, cfg.tgt(&strip(&m.receiver)), &*m.receiver))
+        }
+        _ => None,
+    }
+}
+
+fn macro_mentions_lock(ts: &TokenStream, helpers: &Helpers) -> bool {
+    ts.clone().into_iter().any(|t| match t {
+        TokenTree::Ident(i) => {
+            let s = i.to_string();
+            s == "lock" || s == "try_lock" || helpers.contains_key(&s)
+        }
+        TokenTree::Group(g) => macro_mentions_lock(&g.stream(), helpers),
+        _ => false,
+    })
+}
+
+/// does the expression contain anything that matters for the lock events: an
+/// acquisition, a `drop` of a held guard, a `return`, a `?`
+struct Relevant<'a> {
+    helpers: &'a Helpers,
+    cfg: &'a Cfg,
+    in_closure: usize,
+    acq: bool,
+    flow: bool,
+}
+impl<'ast> Visit<'ast> for Relevant<'_> {
     fn visit_expr(&mut self, e: &'ast Expr) {
-        if let Some((k, of, t, _args)) = self.as_acq(e) {
-            self.ev.push(LEv::Acq { kind: k, on_fail: of, tgt: t });
-            self.temps.push(t);
+        if as_acq(e, self.helpers, self.cfg).is_some() {
+            self.acq = true;
             return;
         }
-        if let Expr::Call(c) = e {
-            if strip(&c.func) == "drop" && c.args.len() == 1 {
+        match e {
+            Expr::Return(_) | Expr::Try(_) if self.in_closure == 0 => self.flow = true,
+            Expr::Call(c) if strip(&c.func) == "drop" && c.args.len() == 1 => {
                 let a = strip(&c.args[0]);
-                if let Some(pos) = self.held.iter().rposition(|h| h.0.as_deref() == Some(a.as_str())) {
-                    let (_, t) = self.held.remove(pos);
-                    self.ev.push(LEv::Rel(t));
-                    return;
+                if self.cfg.held.iter().any(|h| h.name.as_deref() == Some(a.as_str())) {
+                    self.flow = true;
                 }
             }
-        }
-        if let Expr::If(i) = e {
-            if strip(&i.cond).starts_with("Arc::ptr_eq(") && crate::r2l::diverges(&i.then_branch.stmts) {
-                self.ev.push(LEv::Distinct);
+            Expr::Closure(c) => {
+                self.in_closure += 1;
+                self.visit_expr(&c.body);
+                self.in_closure -= 1;
+                return;
             }
+            Expr::Macro(m) => {
+                if macro_mentions_lock(&m.mac.tokens, self.helpers) {
+                    self.acq = true;
+                }
+                return;
+            }
+            _ => {}
         }
         syn::visit::visit_expr(self, e);
     }
-    fn visit_item(&mut self, _i: &'ast syn::Item) {} // nested items are functions of their own
+    fn visit_stmt(&mut self, s: &'ast Stmt) {
+        if is_hook_stmt(s) {
+            return;
+        }
+        if let Stmt::Macro(m) = s {
+            if macro_mentions_lock(&m.mac.tokens, self.helpers) {
+                self.acq = true;
+            }
+            return;
+        }
+        syn::visit::visit_stmt(self, s);
+    }
+    fn visit_item(&mut self, _i: &'ast syn::Item) {}
 }
 
-fn lock_events(block: &syn::Block, helpers: &BTreeMap<String, (&'static str, &'static str)>) -> Vec<LEv> {
-    let mut w = LockWalk { helpers, ev: vec![], held: vec![], temps: vec![], order_flags: BTreeMap::new(), names: BTreeMap::new() };
-    for s in &block.stmts {
-        w.visit_stmt(s);
+fn is_hook_stmt(s: &Stmt) -> bool {
+    strip(s).starts_with("#[cfg(feature=\"verif-hooks\")]")
+}
+
+enum LinItem {
+    Acq(&'static str, &'static str, &'static str),
+    Drop(String),
+    Try,
+}
+
+/// the lock events of an expression without lock-relevant control flow inside, in evaluation order
+struct Lin<'a> {
+    tw: &'a TW<'a>,
+    cfg: &'a Cfg,
+    items: Vec<LinItem>,
+    err: Option<String>,
+}
+impl<'ast> Visit<'ast> for Lin<'_> {
+    fn visit_expr(&mut self, e: &'ast Expr) {
+        if self.err.is_some() {
+            return;
+        }
+        if let Some((k, of, t, recv)) = as_acq(e, self.tw.helpers, self.cfg) {
+            self.visit_expr(recv);
+            self.items.push(LinItem::Acq(k, of, t));
+            return;
+        }
+        match e {
+            Expr::Call(c) if strip(&c.func) == "drop" && c.args.len() == 1 => {
+                let a = strip(&c.args[0]);
+                if self.cfg.held.iter().any(|h| h.name.as_deref() == Some(a.as_str())) {
+                    self.items.push(LinItem::Drop(a));
+                    return;
+                }
+            }
+            Expr::Try(t) => {
+                self.visit_expr(&t.expr);
+                self.items.push(LinItem::Try);
+                return;
+            }
+            Expr::Block(_) | Expr::Unsafe(_) => {
+                let b = match e {
+                    Expr::Block(b) => &b.block,
+                    Expr::Unsafe(u) => &u.block,
+                    _ => unreachable!(),
+                };
+                let (acq, flow) = self.tw.relevant_block(&b.stmts, self.cfg);
+                if acq || flow {
+                    // a block inside an expression: only its value expression may touch locks
+                    let real: Vec<&Stmt> = b.stmts.iter().filter(|s| !is_hook_stmt(s)).collect();
+                    match real.as_slice() {
+                        [Stmt::Expr(x, None)] => self.visit_expr(x),
+                        _ => self.err = Some(format!("unsupported: statements that touch a lock inside a nested block expression: {}", strip(e))),
+                    }
+                }
+                return;
+            }
+            Expr::If(_) | Expr::Match(_) | Expr::While(_) | Expr::ForLoop(_) | Expr::Loop(_) | Expr::Closure(_)
+            | Expr::Return(_) | Expr::Async(_) | Expr::Macro(_) | Expr::Let(_) => {
+                let (acq, flow) = self.tw.relevant(e, self.cfg);
+                let flow = flow && !matches!(e, Expr::Closure(_));
+                if acq || flow {
+                    self.err = Some(format!("unsupported: control flow that touches a lock inside an expression: {}", strip(e)));
+                }
+                return;
+            }
+            _ => {}
+        }
+        syn::visit::visit_expr(self, e);
     }
-    // the tail expression's temporaries and the named guards die at the end of the body
-    w.release_temps(0);
-    while let Some((_, t)) = w.held.pop() {
-        w.ev.push(LEv::Rel(t));
+    fn visit_item(&mut self, _i: &'ast syn::Item) {}
+}
+
+impl<'h> TW<'h> {
+    fn relevant(&self, e: &Expr, cfg: &Cfg) -> (bool, bool) {
+        let mut r = Relevant { helpers: self.helpers, cfg, in_closure: 0, acq: false, flow: false };
+        r.visit_expr(e);
+        (r.acq, r.flow)
     }
-    w.ev
+    fn relevant_block(&self, stmts: &[Stmt], cfg: &Cfg) -> (bool, bool) {
+        let mut r = Relevant { helpers: self.helpers, cfg, in_closure: 0, acq: false, flow: false };
+        for s in stmts {
+            r.visit_stmt(s);
+        }
+        (r.acq, r.flow)
+    }
+
+    /// finish a path: every guard still held is released
+    fn finish(&mut self, mut cfg: Cfg) {
+        cfg.release_from(0, false);
+        self.done.push(cfg);
+    }
+
+    /// An expression without lock-relevant control flow: its acquisitions become
+    /// temporaries (released by the caller at the end of the statement).  A `?`
+    /// forks an early-return path.  Returns the continuing path (always one).
+    fn linear(&mut self, e: &Expr, mut cfg: Cfg) -> Result<Cfg, String> {
+        let items = {
+            let mut l = Lin { tw: &*self, cfg: &cfg, items: vec![], err: None };
+            l.visit_expr(e);
+            if let Some(x) = l.err {
+                return Err(x);
+            }
+            l.items
+        };
+        let mut tried = false;
+        for it in &items {
+            match it {
+                LinItem::Try => tried = true,
+                LinItem::Acq(..) | LinItem::Drop(_) if tried => {
+                    return Err(format!("unsupported: a lock event after a `?` in one expression: {}", strip(e)));
+                }
+                LinItem::Acq(k, of, t) => {
+                    cfg.path.push(LEv::Acq { kind: k, on_fail: of, tgt: t });
+                    cfg.held.push(Held { name: None, tgt: t, temp: true });
+                }
+                LinItem::Drop(n) => {
+                    let pos = cfg.held.iter().rposition(|h| h.name.as_deref() == Some(n.as_str())).unwrap();
+                    let h = cfg.held.remove(pos);
+                    cfg.path.push(LEv::Rel(h.tgt));
+                }
+            }
+        }
+        if tried {
+            let mut ret = cfg.clone();
+            ret.path.push(LEv::Assume("opaque", true));
+            self.finish(ret);
+            cfg.path.push(LEv::Assume("opaque", false));
+        }
+        Ok(cfg)
+    }
+
+    /// a block: its statements, then the guards it declared are released — except those its value hands out
+    fn block(&mut self, stmts: &[Stmt], cfgs: Vec<Cfg>, want_moves: bool) -> Result<Vec<(Cfg, Moves)>, String> {
+        let stmts: Vec<&Stmt> = stmts.iter().filter(|s| !is_hook_stmt(s)).collect();
+        let mut out = vec![];
+        for cfg in cfgs {
+            let mark = cfg.held.len();
+            let mut live = vec![cfg];
+            let mut results: Vec<(Cfg, Moves)> = vec![];
+            for (i, s) in stmts.iter().enumerate() {
+                let last = i + 1 == stmts.len();
+                let mut next = vec![];
+                for c in live {
+                    if last {
+                        if let Stmt::Expr(e, None) = s {
+                            results.extend(self.tail(e, c, mark, want_moves)?);
+                            continue;
+                        }
+                    }
+                    next.extend(self.stmt(s, c)?);
+                }
+                live = next;
+            }
+            for c in live {
+                results.push((c, vec![]));
+            }
+            for (mut c, mv) in results {
+                c.release_from(mark, false);
+                out.push((c, mv));
+            }
+        }
+        Ok(out)
+    }
+
+    /// the value expression of a block
+    fn tail(&mut self, e: &Expr, mut cfg: Cfg, mark: usize, want_moves: bool) -> Result<Vec<(Cfg, Moves)>, String> {
+        if want_moves {
+            // `(a, b)`, `(a, Some(b))`, `(a, None)`, `a`: guards declared in this block leave it
+            let slot = |x: &Expr, cfg: &Cfg| -> Option<usize> {
+                let name = match x {
+                    Expr::Path(p) => strip(p),
+                    Expr::Call(c) if strip(&c.func) == "Some" && c.args.len() == 1 => strip(&c.args[0]),
+                    _ => return None,
+                };
+                cfg.held.iter().enumerate().skip(mark).find(|(_, h)| h.name.as_deref() == Some(name.as_str())).map(|(i, _)| i)
+            };
+            let elems: Vec<&Expr> = match e {
+                Expr::Tuple(t) => t.elems.iter().collect(),
+                other => vec![other],
+            };
+            let slots: Vec<Option<usize>> = elems.iter().map(|x| slot(x, &cfg)).collect();
+            if slots.iter().any(|s| s.is_some()) {
+                for (x, s) in elems.iter().zip(&slots) {
+                    if s.is_none() {
+                        let (a, f) = self.relevant(x, &cfg);
+                        if a || f {
+                            return Err(format!("unsupported: a lock event next to a guard that leaves its block: {}", strip(e)));
+                        }
+                    }
+                }
+                let moves: Moves = slots.iter().map(|s| s.map(|i| cfg.held[i].tgt)).collect();
+                let mut idx: Vec<usize> = slots.iter().flatten().copied().collect();
+                idx.sort();
+                idx.dedup();
+                if idx.len() != slots.iter().flatten().count() {
+                    return Err(format!("unsupported: one guard twice in a block value: {}", strip(e)));
+                }
+                for i in idx.into_iter().rev() {
+                    cfg.held.remove(i);
+                }
+                return Ok(vec![(cfg, moves)]);
+            }
+            if let Some((k, of, t, recv)) = as_acq(e, self.helpers, &cfg) {
+                let mut cfg = self.linear(recv, cfg)?;
+                cfg.path.push(LEv::Acq { kind: k, on_fail: of, tgt: t });
+                cfg.release_from(mark, true);
+                return Ok(vec![(cfg, vec![Some(t)])]);
+            }
+        }
+        let smark = cfg.held.len();
+        let r = self.expr_stmt(e, cfg, want_moves)?;
+        Ok(r.into_iter().map(|(mut c, mv)| {
+            c.release_from(smark.min(c.held.len()), true);
+            (c, mv)
+        }).collect())
+    }
+
+    fn stmt(&mut self, s: &Stmt, mut cfg: Cfg) -> Result<Vec<Cfg>, String> {
+        let smark = cfg.held.len();
+        let mut out: Vec<Cfg> = match s {
+            Stmt::Item(_) => vec![cfg],
+            Stmt::Macro(m) => {
+                if macro_mentions_lock(&m.mac.tokens, self.helpers) {
+                    return Err(format!("unsupported: a macro invocation that mentions a lock: {}", strip(s)));
+                }
+                vec![cfg]
+            }
+            Stmt::Expr(e, _) => {
+                let r = self.expr_stmt(e, cfg, false)?;
+                r.into_iter().map(|(c, _)| c).collect()
+            }
+            Stmt::Local(l) => {
+                if !l.attrs.is_empty() {
+                    return Err(format!("unsupported: attribute on a `let`: {}", strip(s)));
+                }
+                let pat = match &l.pat {
+                    Pat::Type(t) => &*t.pat,
+                    p => p,
+                };
+                let names: Vec<String> = {
+                    struct Ids(Vec<String>);
+                    impl<'ast> Visit<'ast> for Ids {
+                        fn visit_pat_ident(&mut self, i: &'ast syn::PatIdent) {
+                            self.0.push(i.ident.to_string());
+                            syn::visit::visit_pat_ident(self, i);
+                        }
+                    }
+                    let mut v = Ids(vec![]);
+                    v.visit_pat(pat);
+                    v.0
+                };
+                let Some(init) = &l.init else {
+                    for n in &names {
+                        cfg.shadow(n);
+                    }
+                    return Ok(vec![cfg]);
+                };
+                let single = match pat {
+                    Pat::Ident(i) if i.subpat.is_none() => Some(i.ident.to_string()),
+                    _ => None,
+                };
+                // `let … else { diverges }`
+                if let Some((_, els)) = &init.diverge {
+                    let (a, f) = self.relevant(&init.expr, &cfg);
+                    let (a2, _) = self.relevant(els, &cfg);
+                    if a || a2 {
+                        return Err(format!("unsupported: a lock acquisition in a `let … else`: {}", strip(s)));
+                    }
+                    let _ = f;
+                    let mut c = self.linear(&init.expr, cfg)?;
+                    let mut c_else = c.clone();
+                    c_else.path.push(LEv::Assume("opaque", true));
+                    let Expr::Block(b) = &**els else { return Err("unsupported: `let … else` without a block".into()) };
+                    let r = self.block(&b.block.stmts, vec![c_else], false)?;
+                    for (x, _) in r {
+                        self.finish(x); // the else block diverges
+                    }
+                    c.path.push(LEv::Assume("opaque", false));
+                    for n in &names {
+                        c.shadow(n);
+                    }
+                    return Ok(vec![c]);
+                }
+                let e = &*init.expr;
+                // a named guard
+                if let Some((k, of, t, recv)) = as_acq(e, self.helpers, &cfg) {
+                    let Some(name) = single else {
+                        return Err(format!("unsupported: a guard bound by a pattern: {}", strip(s)));
+                    };
+                    let mut c = self.linear(recv, cfg)?;
+                    c.path.push(LEv::Acq { kind: k, on_fail: of, tgt: t });
+                    c.release_from(smark, true);
+                    c.shadow(&name);
+                    c.held.push(Held { name: Some(name), tgt: t, temp: false });
+                    return Ok(vec![c]);
+                }
+                // a flag that names an address comparison
+                if matches!(e, Expr::Binary(_) | Expr::Call(_) | Expr::Unary(_) | Expr::Paren(_)) {
+                    if let (Some(name), Some(c)) = (&single, cond_of(e, &cfg)?) {
+                        cfg.shadow(name);
+                        cfg.flags.insert(name.clone(), c);
+                        return Ok(vec![cfg]);
+                    }
+                }
+                // a list created here
+                if let Some(name) = &single {
+                    if let Expr::Call(c) = e {
+                        let f = strip(&c.func);
+                        if ["Self::new", "ErasedList::new", "List::new", "Self::with_capacity", "ErasedList::with_capacity"].contains(&f.as_str()) {
+                            let mut c2 = self.linear(e, cfg)?;
+                            c2.release_from(smark, true);
+                            c2.shadow(name);
+                            c2.fresh.insert(name.clone());
+                            return Ok(vec![c2]);
+                        }
+                    }
+                }
+                let r = self.expr_stmt(e, cfg, true)?;
+                let mut out = vec![];
+                for (mut c, mv) in r {
+                    c.release_from(smark.min(c.held.len()), true);
+                    for n in &names {
+                        c.shadow(n);
+                    }
+                    if mv.iter().any(|m| m.is_some()) {
+                        let targets: Vec<Option<String>> = match pat {
+                            Pat::Ident(i) if i.subpat.is_none() => vec![Some(i.ident.to_string())],
+                            Pat::Tuple(t) => t.elems.iter().map(|p| match p {
+                                Pat::Ident(i) if i.subpat.is_none() => Some(i.ident.to_string()),
+                                _ => None,
+                            }).collect(),
+                            _ => vec![],
+                        };
+                        if targets.len() != mv.len() {
+                            return Err(format!("unsupported: guards leave a block into a pattern of another shape: {}", strip(s)));
+                        }
+                        for (n, m) in targets.iter().zip(&mv) {
+                            if let Some(t) = m {
+                                let Some(n) = n else {
+                                    return Err(format!("unsupported: a guard bound by a nested pattern: {}", strip(s)));
+                                };
+                                c.held.push(Held { name: Some(n.clone()), tgt: t, temp: false });
+                            }
+                        }
+                    }
+                    out.push(c);
+                }
+                return Ok(out);
+            }
+        };
+        for c in out.iter_mut() {
+            let m = smark.min(c.held.len());
+            c.release_from(m, true);
+        }
+        Ok(out)
+    }
+
+    /// an expression in statement (or block value / `let` initialiser) position
+    fn expr_stmt(&mut self, e: &Expr, cfg: Cfg, want_moves: bool) -> Result<Vec<(Cfg, Moves)>, String> {
+        let (acq, flow) = self.relevant(e, &cfg);
+        if !acq && !flow {
+            // nothing about locks inside (address conditions of a lock-free `if` included)
+            return Ok(vec![(cfg, vec![])]);
+        }
+        match e {
+            Expr::Paren(p) => self.expr_stmt(&p.expr, cfg, want_moves),
+            Expr::If(i) => self.if_(i, cfg, want_moves),
+            Expr::Match(m) => self.match_(m, cfg, want_moves),
+            Expr::Block(b) => self.block(&b.block.stmts, vec![cfg], want_moves),
+            Expr::Unsafe(u) => self.block(&u.block.stmts, vec![cfg], want_moves),
+            Expr::ForLoop(f) => {
+                let c = self.linear(&f.expr, cfg)?;
+                self.loop_(&f.body, c)
+            }
+            Expr::While(w) => {
+                let (a, fl) = self.relevant(&w.cond, &cfg);
+                if a || fl {
+                    return Err(format!("unsupported: a lock event in a `while` condition: {}", strip(&w.cond)));
+                }
+                self.loop_(&w.body, cfg)
+            }
+            Expr::Loop(l) => self.loop_(&l.body, cfg),
+            Expr::Return(r) => {
+                let c = match &r.expr {
+                    Some(x) => self.linear(x, cfg)?,
+                    None => cfg,
+                };
+                self.finish(c);
+                Ok(vec![])
+            }
+            other => Ok(vec![(self.linear(other, cfg)?, vec![])]),
+        }
+    }
+
+    fn if_(&mut self, i: &syn::ExprIf, cfg: Cfg, want_moves: bool) -> Result<Vec<(Cfg, Moves)>, String> {
+        let (cond, pol, cfg) = match cond_of(&i.cond, &cfg)? {
+            Some((c, p)) => (c, p, cfg),
+            None => {
+                let (a, f) = self.relevant(&i.cond, &cfg);
+                if a || f {
+                    if matches!(&*i.cond, Expr::Let(_)) {
+                        return Err(format!("unsupported: a lock event in the scrutinee of an `if let`: {}", strip(&i.cond)));
+                    }
+                    // temporaries of a plain `if` condition die before the branches run
+                    let m = cfg.held.len();
+                    let mut c = self.linear(&i.cond, cfg)?;
+                    c.release_from(m, true);
+                    ("opaque", true, c)
+                } else {
+                    ("opaque", true, cfg)
+                }
+            }
+        };
+        let mut c1 = cfg.clone();
+        c1.path.push(LEv::Assume(cond, pol));
+        let mut out = self.block(&i.then_branch.stmts, vec![c1], want_moves)?;
+        let mut c2 = cfg;
+        c2.path.push(LEv::Assume(cond, !pol));
+        match i.else_branch.as_ref().map(|(_, e)| &**e) {
+            None => out.push((c2, vec![])),
+            Some(Expr::Block(b)) => out.extend(self.block(&b.block.stmts, vec![c2], want_moves)?),
+            Some(Expr::If(i2)) => out.extend(self.if_(i2, c2, want_moves)?),
+            Some(other) => return Err(format!("unsupported else branch: {}", strip(other))),
+        }
+        Ok(out)
+    }
+
+    fn match_(&mut self, m: &syn::ExprMatch, cfg: Cfg, want_moves: bool) -> Result<Vec<(Cfg, Moves)>, String> {
+        let smark = cfg.held.len();
+        let mut cur = self.linear(&m.expr, cfg)?; // the scrutinee's temporaries live until the end of the `match`
+        let mut out = vec![];
+        let n = m.arms.len();
+        if n == 0 {
+            return Ok(vec![(cur, vec![])]);
+        }
+        for (k, arm) in m.arms.iter().enumerate() {
+            if let Some((_, g)) = &arm.guard {
+                let (a, f) = self.relevant(g, &cur);
+                if a || f {
+                    return Err(format!("unsupported: a lock event in a match guard: {}", strip(g)));
+                }
+            }
+            let c_arm = if k + 1 < n {
+                let mut c = cur.clone();
+                c.path.push(LEv::Assume("opaque", true));
+                cur.path.push(LEv::Assume("opaque", false));
+                c
+            } else {
+                cur.clone()
+            };
+            let body = vec![Stmt::Expr((*arm.body).clone(), None)];
+            out.extend(self.block(&body, vec![c_arm], want_moves)?);
+        }
+        for (c, _) in out.iter_mut() {
+            let mk = smark.min(c.held.len());
+            c.release_from(mk, true);
+        }
+        Ok(out)
+    }
+
+    /// a loop body runs zero or more times: expressible as finitely many paths only when
+    /// the body acquires nothing (its early returns then look the same in every iteration)
+    fn loop_(&mut self, body: &syn::Block, cfg: Cfg) -> Result<Vec<(Cfg, Moves)>, String> {
+        let (a, _) = self.relevant_block(&body.stmts, &cfg);
+        if a {
+            return Err("unsupported: a lock acquisition inside a loop body".into());
+        }
+        let mut c_body = cfg.clone();
+        c_body.path.push(LEv::Assume("opaque", true));
+        let mut out = self.block(&body.stmts, vec![c_body], false)?;
+        let mut c_skip = cfg;
+        c_skip.path.push(LEv::Assume("opaque", false));
+        out.push((c_skip, vec![]));
+        Ok(out.into_iter().map(|(c, _)| (c, vec![])).collect())
+    }
+}
+
+/// every control-flow path of a body, as lock events (with the branch decisions taken)
+fn lock_paths(block: &syn::Block, helpers: &Helpers) -> Result<Vec<Vec<LEv>>, String> {
+    let mut tw = TW { helpers, done: vec![] };
+    let live = tw.block(&block.stmts, vec![Cfg::default()], false)?;
+    for (c, _) in live {
+        tw.finish(c);
+    }
+    Ok(tw.done.into_iter().map(|c| c.path).collect())
+}
+
+/// the paths of one body share prefixes up to the branch decisions: fold them back into the tree
+fn build_tree(paths: Vec<&[LEv]>) -> Result<LTree, String> {
+    if paths.is_empty() {
+        return Err("a branch without any path".into());
+    }
+    if paths.iter().all(|p| p.is_empty()) {
+        return Ok(LTree::Done);
+    }
+    if paths.iter().any(|p| p.is_empty()) {
+        return Err("paths of one body do not form a tree (one ends where another goes on)".into());
+    }
+    match &paths[0][0] {
+        LEv::Assume(c, _) => {
+            let mut t = vec![];
+            let mut f = vec![];
+            for p in &paths {
+                match &p[0] {
+                    LEv::Assume(c2, true) if c2 == c => t.push(&p[1..]),
+                    LEv::Assume(c2, false) if c2 == c => f.push(&p[1..]),
+                    _ => return Err("paths of one body do not form a tree (different branch conditions)".into()),
+                }
+            }
+            Ok(LTree::Branch(c, Box::new(build_tree(t)?), Box::new(build_tree(f)?)))
+        }
+        ev => {
+            if paths.iter().any(|p| &p[0] != ev) {
+                return Err("paths of one body do not form a tree (different events without a branch)".into());
+            }
+            Ok(LTree::Ev(ev.clone(), Box::new(build_tree(paths.iter().map(|p| &p[1..]).collect())?)))
+        }
+    }
+}
+
+/// drop branch decisions that make no difference to the lock events (both sides equal)
+fn prune(t: LTree) -> LTree {
+    match t {
+        LTree::Done => LTree::Done,
+        LTree::Ev(e, r) => LTree::Ev(e, Box::new(prune(*r))),
+        LTree::Branch(c, a, b) => {
+            let (a, b) = (prune(*a), prune(*b));
+            if c == "opaque" && lean_tree(&a) == lean_tree(&b) {
+                a
+            } else {
+                LTree::Branch(c, Box::new(a), Box::new(b))
+            }
+        }
+    }
+}
+
+fn has_acq(t: &LTree) -> bool {
+    match t {
+        LTree::Done => false,
+        LTree::Ev(LEv::Acq { .. }, _) => true,
+        LTree::Ev(_, r) => has_acq(r),
+        LTree::Branch(_, a, b) => has_acq(a) || has_acq(b),
+    }
+}
+
+fn lean_tree(t: &LTree) -> String {
+    match t {
+        LTree::Done => ".done".into(),
+        LTree::Ev(LEv::Acq { kind, on_fail, tgt }, r) => format!("(.acq .{kind} .{on_fail} .{tgt} {})", lean_tree(r)),
+        LTree::Ev(LEv::Rel(t), r) => format!("(.rel .{t} {})", lean_tree(r)),
+        LTree::Ev(LEv::Assume(..), _) => unreachable!("assume events become branch nodes"),
+        LTree::Branch(c, a, b) => format!("(.branch .{c} {} {})", lean_tree(a), lean_tree(b)),
+    }
+}
+
+/// does the body mention a lock at all (cheap pre-filter: bodies without one have no events)
+fn mentions_lock(block: &syn::Block, helpers: &Helpers) -> bool {
+    macro_mentions_lock(&block.to_token_stream(), helpers)
+}
+
+fn lock_tree(block: &syn::Block, helpers: &Helpers) -> Result<Option<LTree>, String> {
+    if !mentions_lock(block, helpers) {
+        return Ok(None);
+    }
+    let paths = lock_paths(block, helpers)?;
+    let t = prune(build_tree(paths.iter().map(|p| p.as_slice()).collect())?);
+    Ok(if has_acq(&t) { Some(t) } else { None })
 }
 
 struct ListFns {
@@ -1014,9 +1639,14 @@ struct ListFns {
     cur: Option<String>,
     out: Vec<(String, String, syn::Block, String)>, // (ctor, owner, body, return type text)
 }
+/// `#[cfg(feature = "verif-hooks")]` on an item: verification hooks are not part of the shipped code
+fn hook_attrs(attrs: &[syn::Attribute]) -> bool {
+    attrs.iter().any(|a| strip(a) == "#[cfg(feature=\"verif-hooks\")]")
+}
+
 impl<'ast> Visit<'ast> for ListFns {
     fn visit_item_mod(&mut self, m: &'ast syn::ItemMod) {
-        if m.ident == "tests" {
+        if m.ident == "tests" || hook_attrs(&m.attrs) {
             return;
         }
         self.path.push(m.ident.to_string());
@@ -1024,6 +1654,9 @@ impl<'ast> Visit<'ast> for ListFns {
         self.path.pop();
     }
     fn visit_item_impl(&mut self, i: &'ast syn::ItemImpl) {
+        if hook_attrs(&i.attrs) {
+            return;
+        }
         let ty = strip(&i.self_ty);
         let ty: String = ty.split('<').next().unwrap_or("").to_string();
         let label = match &i.trait_ {
@@ -1035,6 +1668,9 @@ impl<'ast> Visit<'ast> for ListFns {
         self.cur = old;
     }
     fn visit_impl_item_fn(&mut self, f: &'ast syn::ImplItemFn) {
+        if hook_attrs(&f.attrs) {
+            return;
+        }
         let owner = self.cur.clone().unwrap_or_default();
         let mut parts = self.path.clone();
         parts.push(owner.clone());
@@ -1043,6 +1679,9 @@ impl<'ast> Visit<'ast> for ListFns {
         syn::visit::visit_impl_item_fn(self, f);
     }
     fn visit_item_fn(&mut self, f: &'ast syn::ItemFn) {
+        if hook_attrs(&f.attrs) {
+            return;
+        }
         let mut parts = self.path.clone();
         if let Some(c) = &self.cur {
             parts.push(c.clone());
@@ -1066,12 +1705,13 @@ pub fn c10locks(repo: &Path) -> Result<String, String> {
     let mut helpers: BTreeMap<String, (&'static str, &'static str)> = BTreeMap::new();
     for (ctor, _owner, body, ret) in &lf.out {
         if ret.contains("MutexGuard") {
-            let acqs: Vec<LEv> = lock_events(body, &none).into_iter().filter(|e| matches!(e, LEv::Acq { .. })).collect();
-            let name = ctor.rsplit('_').next().unwrap_or("").to_string();
+            let paths = lock_paths(body, &none).map_err(|e| format!("guard-returning function {ctor}: {e}"))?;
+            if paths.len() != 1 {
+                return Err(format!("guard-returning function {ctor}: expected straight-line code, found {} paths", paths.len()));
+            }
+            let acqs: Vec<&LEv> = paths[0].iter().filter(|e| matches!(e, LEv::Acq { .. })).collect();
             match acqs.as_slice() {
                 [LEv::Acq { kind, on_fail, .. }] => {
-                    // the ctor's last `_`-separated piece is not the method name when it contains `_`: use the real one
-                    let _ = name;
                     helpers.insert(ctor.clone(), (*kind, *on_fail));
                 }
                 other => return Err(format!("guard-returning function {ctor}: expected exactly one acquisition, found {}", other.len())),
@@ -1084,8 +1724,13 @@ pub fn c10locks(repo: &Path) -> Result<String, String> {
         struct Names(Vec<(String, String)>);
         impl<'ast> Visit<'ast> for Names {
             fn visit_item_mod(&mut self, m: &'ast syn::ItemMod) {
-                if m.ident != "tests" {
+                if m.ident != "tests" && !hook_attrs(&m.attrs) {
                     syn::visit::visit_item_mod(self, m);
+                }
+            }
+            fn visit_item_impl(&mut self, i: &'ast syn::ItemImpl) {
+                if !hook_attrs(&i.attrs) {
+                    syn::visit::visit_item_impl(self, i);
                 }
             }
             fn visit_impl_item_fn(&mut self, f: &'ast syn::ImplItemFn) {
@@ -1110,16 +1755,13 @@ pub fn c10locks(repo: &Path) -> Result<String, String> {
             }
         }
     }
-    let mut rows: Vec<(String, String, Vec<LEv>)> = vec![];
+    let mut rows: Vec<(String, String, LTree)> = vec![];
     let mut seen = HashSet::new();
     for (ctor, owner, body, ret) in &lf.out {
         if ret.contains("MutexGuard") {
             continue; // charged to its callers
         }
-        let ev = lock_events(body, &by_method);
-        if ev.is_empty() {
-            continue;
-        }
+        let Some(ev) = lock_tree(body, &by_method).map_err(|e| format!("{ctor}: {e}"))? else { continue };
         let mut c = ctor.clone();
         while !seen.insert(c.clone()) {
             c.push('\'');
@@ -1127,10 +1769,7 @@ pub fn c10locks(repo: &Path) -> Result<String, String> {
         rows.push((c, owner.clone(), ev));
     }
     for f in library_fns(&basic)? {
-        let ev = lock_events(&f.body, &by_method);
-        if ev.is_empty() {
-            continue;
-        }
+        let Some(ev) = lock_tree(&f.body, &by_method).map_err(|e| format!("binding {}.{}: {e}", f.impl_ty, f.name))? else { continue };
         let mut c = format!("binding_{}", ctor_name(&f.impl_ty, &f.name));
         while !seen.insert(c.clone()) {
             c.push('\'');
@@ -1165,14 +1804,9 @@ pub fn c10locks(repo: &Path) -> Result<String, String> {
     }
     out.push_str("  deriving DecidableEq, Repr\n\n");
     out.push_str(&format!("def LockFn.all : List LockFn := [{}]\n\n", rows.iter().map(|r| format!(".{}", r.0)).collect::<Vec<_>>().join(", ")));
-    out.push_str("def LockFn.events : LockFn → List Ev\n");
+    out.push_str("/-- the lock events of each function as written, along its control flow -/\ndef LockFn.tree : LockFn → Tree\n");
     for (c, _, ev) in &rows {
-        let e: Vec<String> = ev.iter().map(|e| match e {
-            LEv::Acq { kind, on_fail, tgt } => format!(".acq .{kind} .{on_fail} .{tgt}"),
-            LEv::Rel(t) => format!(".rel .{t}"),
-            LEv::Distinct => ".distinctOrReturn".to_string(),
-        }).collect();
-        out.push_str(&format!("  | .{c} => [{}]\n", e.join(", ")));
+        out.push_str(&format!("  | .{c} => {}\n", lean_tree(ev)));
     }
     out.push_str("\n/-- reached by compiled code: methods of the erased list, the FFI shims, binding bodies, and\n    the host-side `List<T>` methods a list binding calls by name -/\ndef LockFn.reachedByBuiltins : LockFn → Bool\n");
     for (c, owner, _) in &rows {
